@@ -306,7 +306,8 @@ def run(ctx):
                                    "exhaustive_yield_vectors": [f"{a}: {{0..{2 if ctx.quick else 3}}}^{b} = {c}" for a, b, c in exhaustive][:80]}
     ctx.add_eval(n_runs + n + nw)
     ctx.coverage["distinct_nontrivial"] = n_nontrivial
-    ctx.coverage["exhaustive"] = f"all yield vectors in {{0..{2 if ctx.quick else 3}}}^n for every tree with n <= {4 if ctx.quick else 5} FC evaluator calls ({len(exhaustive)} trees); random vectors in {{0..3}}^n beyond"
+    ctx.coverage["exhaustive"] = False
+    ctx.notes["exhaustive_scope"] = f"all yield vectors in {{0..{2 if ctx.quick else 3}}}^n for every tree with n <= {4 if ctx.quick else 5} FC evaluator calls ({len(exhaustive)} trees); random vectors in {{0..3}}^n beyond"
     ctx.coverage["rule"] = ("validate_segment / validate_segment_group / validate_deep_anwendungshandbuch on trees with 2-5 free-text elements with pairwise different inputs (also None and ''), "
                             "1-2 format constraints each (same and different keys), value-pool siblings with illegal input, package and RC prefixed expressions, nested groups; "
                             "one yield count per FC evaluator call (RC/hint/package awaitables yield pseudo-randomly derived from the vector); non-trivial = runs with a non-zero vector; "
